@@ -985,6 +985,35 @@ impl World {
                 self.classes.insert(format!("reorg-depth-{}", match depth { 0 => "0", 1 => "1", 2..=3 => "2-3", 4..=6 => "4-6", 7..=12 => "7-12", _ => ">12" }));
             }
             Op::Poll => self.do_poll("poll"),
+            Op::PollFail { nth, persistent } => {
+                {
+                    let mut st = self.node.lock();
+                    st.fault.get_block_calls = 0;
+                    st.fault.fail_get_block_nth = Some((*nth as usize, *persistent));
+                }
+                let from = self.node.log_len();
+                let r = self.tower.as_mut().unwrap().poll();
+                self.node.lock().fault.fail_get_block_nth = None;
+                let events = self.node_events_since(from);
+                if let Err(p) = r {
+                    return self.panic_violation("chain processing (poll with a failed block download)", p);
+                }
+                self.process_chain_events(events);
+                if self.dead {
+                    return;
+                }
+                // the tower may legitimately be behind the node now; a transient failure flags the node unreachable
+                // until the next successful poll, so no API read-back here
+                self.classes.insert("poll-with-failed-block-download".into());
+                self.take_model_violations();
+                if !self.dead {
+                    self.compare_store("poll with a failed block download", None);
+                }
+                // make the tower usable again for the following operations (what the next periodic poll does)
+                if !self.dead {
+                    self.do_poll("poll after a failed block download");
+                }
+            }
             Op::SetPolicy { tx, code } => {
                 let txid = tx_of(*tx).compute_txid();
                 let mut st = self.node.lock();
